@@ -160,6 +160,17 @@ CHECKS = {
         "sync start is not judged. BFS depth 5 (quick) / 6 (thorough), at most two shows at a time.",
    technique="explicit-state BFS of the implementation with a reference schedule (replay + fork snapshots)",
    ref="3/C17"),
+ "C11": dict(cat="model_checking",
+   text="Explicit-state BFS over scoring/progress events (variable_player, persisted counter and accrual, shot with a "
+        "3-state profile and persisted enable flag, achievement, timer ticks), drains, player adds, game end and new game "
+        "in a 3-player 2-ball fake game with a game mode. Differential oracles: a progress event during a player's turn "
+        "never changes another player's variables; the device view when a player's next ball starts equals the view when "
+        "their previous ball ended; the first ball of a game starts from the configured initial values; every change of "
+        "score/lives posts exactly one player_<var> event with the right value, prev_value, change and player_num.",
+   note="Trusted: virtual loop, snapshots through public attributes. Timer ticks are checked for isolation only. BFS depth "
+        "7 (quick) / 8 (thorough) with fingerprint merge audit.",
+   technique="explicit-state BFS of the implementation with differential (before/after, turn-to-turn) oracles",
+   ref="3/C11"),
 }
 NOT_YET = "check not built yet in this revision (planned, see DESIGN.md section 7)"
 
